@@ -278,10 +278,11 @@ def x86_function(fn, symaddr):
             if ops[1]["k"] != "reg" or ops[1]["w"] != dw:
                 raise Unknown("%s: %s" % (fn.name, x.raw))
             out.append(rec); continue
-        if op in ("movzx", "movsx"):
-            if ops[0]["k"] != "reg" or ops[1]["k"] != "reg" or ops[0]["w"] >= ops[1]["w"]:
+        if op in ("movzx", "movsx", "movzb", "movzw", "movsb", "movsw", "movsl") and len(ops) == 2:
+            if ops[0]["k"] != "reg" or ops[1]["k"] != "reg" or ops[0]["w"] >= ops[1]["w"] or \
+               (len(op) == 5 and op[4] != "x" and SUFFIX[op[4]] != ops[0]["w"]):
                 raise Unknown("%s: %s" % (fn.name, x.raw))
-            rec.update(op="movx", sw=ops[0]["w"], w=ops[1]["w"], sx=1 if op == "movsx" else 0, a=ops[0], b=ops[1])
+            rec.update(op="movx", sw=ops[0]["w"], w=ops[1]["w"], sx=1 if op[3] == "s" else 0, a=ops[0], b=ops[1])
             out.append(rec); continue
         base = op
         w = 0
@@ -402,6 +403,11 @@ def stack_function(fn, ldcallees=None, hooked=None):
         if x.op == "sub" and _dest_is_rsp(x) and x.args[0].startswith("$"):
             frame = int(x.args[0][1:], 0)
     in_alloca = False
+    # chibicc's common return point.  `return e` jumps to it; control that reaches the closing brace of the body
+    # falls into it.  For the latter the function's value is indeterminate (6.9.1p12: e.g. after a call that
+    # does not return), so no x87 requirement holds at that `ret`: the label record becomes "falloff" (x87
+    # unknown from here) and the jumps are sent to the instruction behind it.
+    idx_ret = (fn.labels.get(".L.return." + fn.name) or [None])[0]
     for i, x in enumerate(ins):
         rec = dict(k="nop", n=0, m=0, t=[], s=x.raw[:48], ln=x.line)
         op = x.op
@@ -412,6 +418,8 @@ def stack_function(fn, ldcallees=None, hooked=None):
                 raise Unknown("%s: unexpected instruction in the frame set-up: %s" % (fn.name, x.raw))
             out.append(rec); continue
         if op == "label":
+            if i == idx_ret:
+                rec.update(k="falloff")
             out.append(rec); continue
         if op == "V":
             a = x.args
@@ -433,7 +441,7 @@ def stack_function(fn, ldcallees=None, hooked=None):
                 if not rec["t"]:
                     raise Unknown("%s: indirect jump but no address-taken label" % fn.name)
             else:
-                rec.update(k="jmp" if op == "jmp" else "jcc", t=[x.target + 1])
+                rec.update(k="jmp" if op == "jmp" else "jcc", t=[x.target + 2 if x.target == idx_ret else x.target + 1])
             out.append(rec); continue
         if op == "ret":
             want = {"x87": 1, "unk": -1}.get(retcls, 0)
